@@ -1248,7 +1248,7 @@ class CountFingerprint(Fingerprint):
         for k, v in other.counts.items():
             new_counts[k] = new_counts.get(k, 0) - v
 
-        new_indices = np.asarray(new_counts.keys(), dtype=np.int64)
+        new_indices = np.asarray(list(new_counts.keys()), dtype=np.int64)
 
         if other.__class__ is FloatFingerprint:
             new_class = FloatFingerprint
